@@ -67,9 +67,9 @@ def select(ds, quick, seed):
     by = collections.defaultdict(list)
     for c in ds:
         by[c["cls"]].append(c)
-    cap = {"truncate": 70, "brokenUtf8": 36, "illegalChar": 30, "loneSurrogate": 24, "fffe": 24, "nul": 16, "numberLiteral": 56, "cdataBracket": 44,
-           "numberFormat": 24, "numberValue": 24, "dropTag": 20, "dupTag": 20, "swapTag": 20, "unclosedQuote": 16, "unknownXslAttribute": 12,
-           "nonExpression": 70}
+    cap = {"truncate": 160, "brokenUtf8": 60, "illegalChar": 50, "loneSurrogate": 40, "fffe": 40, "nul": 30, "numberLiteral": 120, "cdataBracket": 80,
+           "numberFormat": 50, "numberValue": 40, "dropTag": 40, "dupTag": 40, "swapTag": 40, "unclosedQuote": 30, "unknownXslAttribute": 25,
+           "nonExpression": 110}
     out = []
     for cls in sorted(by):
         lst = by[cls]
@@ -116,7 +116,7 @@ def build_inputs(ds, quick, seed, stats):
             if "\x00" in text or any(ord(ch) < 0x20 or 0xD800 <= ord(ch) < 0xE000 or ord(ch) in (0xFFFE, 0xFFFF) for ch in text):
                 continue       # would no longer be a well-formed stylesheet: another class
             items.append({"cls": c["cls"], "role": "xsl", "d": c["d"], "in": add(c03gen.in_stylesheet(text)), "nodeset": False, "desc": c, "embedded": True})
-    nf = 200 if quick else 6000
+    nf = 400 if quick else 6000
     for k, (role, b) in enumerate(c03gen.fuzz_inputs(seed, nf)):
         items.append({"cls": "fuzz", "role": role, "d": 0, "in": add(b), "nodeset": True, "desc": {"cls": "fuzz", "k": k, "seed": seed}})
     return inputs, items, fixed
@@ -124,13 +124,13 @@ def build_inputs(ds, quick, seed, stats):
 
 # depth 100000: a document / template body of that depth costs minutes of CPU under ASan (quadratic), a path of 100000 steps too
 QUICK_DEEPEST = {("deepParens", "parens"), ("deepParens", "calls"), ("deepPredicates", "nested"), ("deepSteps", "child")}
-THOROUGH_DEEPEST_DOCS = {("deepDocument", "elements"), ("deepTemplateBody", "lre")}
+THOROUGH_DEEPEST_DOCS = {("deepDocument", "elements"), ("deepDocument", "mixed")}
 BATCH = 25
 
 
 def plan(items, quick, seed):
     """one execution per (item, scenario).  thorough: every scenario of the role; quick: the first items of every class go through
-    every scenario, the others through two scenarios chosen round-robin (so that all scenarios are used equally); depth 100000
+    every scenario, the others through three scenarios chosen round-robin (so that all scenarios are used equally); depth 100000
     only for one variant per class and depth >= 10000 through two scenarios each."""
     cases, seen_cls = [], collections.Counter()
     rr = collections.Counter()
@@ -144,15 +144,23 @@ def plan(items, quick, seed):
         cv = (it["cls"], it["desc"].get("v"))
         if quick and it["d"] >= 100000 and cv not in QUICK_DEEPEST:
             continue
-        if not quick and it["d"] >= 100000 and it["cls"] in ("deepDocument", "deepTemplateBody"):
+        if quick and it["d"] >= 10000 and it["cls"] == "deepTemplateBody":
+            continue                  # 2-3 CPU minutes each under ASan (quadratic in the depth)
+        if not quick and it["cls"] == "deepTemplateBody" and it["d"] >= 10000:
+            if it["d"] >= 100000:
+                continue              # hours
+            scen = [x for x in scen if x[1] in ("stream", "prebuilt", "capiData")]
+        if not quick and it["cls"] == "deepDocument" and it["d"] >= 100000:
+            # a transformation of a document of depth 100000 takes more than 15 CPU minutes under ASan (ancestor walks per
+            # element): only parsed and queried
             if cv not in THOROUGH_DEEPEST_DOCS:
                 continue
-            scen = [x for x in scen if x[1] in ("stream", "prebuilt", "capiData")]
+            scen = [("X", "evalDoc"), ("X", "xcOneShot")]
         ck = (it["cls"], it["role"], bool(it.get("embedded")))
         full = (not quick) or (seen_cls[ck] < 1 and not big)
         seen_cls[ck] += 1
         if not full:
-            k = 2
+            k = 3
             start = rr[it["role"]]
             rr[it["role"]] += k
             scen = [scen[(start + j) % len(scen)] for j in range(min(k, len(scen)))]
@@ -500,7 +508,7 @@ def run(res, tier, seed):
         "fuzz inputs (VERIF_SEED=%d). Scenarios: %s. non-trivial = the input is not an unmodified seed and the call under test returned; distinct = by "
         "(scenario, build flavour, input bytes)" % (len(ds), tier, len(sel), sum(1 for i in items if i["cls"] == "fuzz"), seed,
                                                      "every scenario of the input's role" if not quick else
-                                                     "every scenario for the first input of each class, two round-robin scenarios for the others"))
+                                                     "every scenario for the first input of each class, three round-robin scenarios for the others"))
     res.notes["inputs"] = len(inputs)
     res.notes["per_class"] = {k: dict(v) for k, v in sorted(per_class.items())}
     res.notes["per_entry_point_calls"] = dict(sorted(per_op.items()))
